@@ -48,6 +48,7 @@ func runC14(c *Ctx) {
 	c.Rule("R14.2", 120, "every unchecked assertion and every index/slice expression in reachable module code is discharged")
 	c.Rule("R14.3", 5, "main: every error becomes a message and a non-zero exit, never a stack trace")
 	c.Rule("R14.4", 4, "entry points never return success with a nil result")
+	c.Rule("R14.5", 1, "a pointer field that some constructor leaves nil is dereferenced only under a nil test")
 
 	c.mute = map[string]bool{"R4.2": true}
 	g := extractEBNF(c, "R14.2")
@@ -209,6 +210,7 @@ func runC14(c *Ctx) {
 
 	checkMainExit(c, "R14.3")
 	checkNilSuccess(c, ri)
+	checkNilableFields(c, scope)
 	if c.Tier == "thorough" {
 		crossCheckBCE(c, scope, examinedLines)
 	}
@@ -1082,4 +1084,270 @@ func crossCheckBCE(c *Ctx, scope []*ssa.Function, examined map[string]bool) {
 	c.Extra("bce_sites_in_scope", inScope)
 	c.Extra("bce_sites_matched_by_inventory", matched)
 	c.Check("R14.2", "the compiler's bounds-check listing was obtained", token.NoPos, total >= 20, fmt.Sprintf("only %d sites listed: the cross-check did not run", total))
+}
+
+// checkNilableFields: R14.5. A pointer-typed struct field is "nil-able" when some value of the struct is built in module code
+// without it (a keyed composite literal that omits the field or sets it to nil, new(T), a zero declaration, or `x.f = nil`).
+// In the functions in scope, every dereference of a pointer loaded from such a field (field selection through it, load
+// through it) must be control-dependent on a nil test of that pointer.
+func checkNilableFields(c *Ctx, scope []*ssa.Function) {
+	type fkey struct {
+		T *types.Named
+		f int
+	}
+	nilable := map[fkey]token.Pos{}
+	markZero := func(T types.Type, pos token.Pos, given map[string]bool) {
+		named, _ := T.(*types.Named)
+		if named == nil {
+			return
+		}
+		st, ok := named.Underlying().(*types.Struct)
+		if !ok {
+			return
+		}
+		for i := 0; i < st.NumFields(); i++ {
+			if _, isPtr := st.Field(i).Type().Underlying().(*types.Pointer); isPtr && !given[st.Field(i).Name()] {
+				if _, seen := nilable[fkey{named, i}]; !seen {
+					nilable[fkey{named, i}] = pos
+				}
+			}
+		}
+	}
+	for _, p := range c.Pkgs {
+		info := p.TypesInfo
+		for _, file := range p.Syntax {
+			ast.Inspect(file, func(n ast.Node) bool {
+				switch x := n.(type) {
+				case *ast.CompositeLit:
+					T := info.TypeOf(x)
+					if T == nil {
+						return true
+					}
+					if len(x.Elts) > 0 {
+						if _, keyed := x.Elts[0].(*ast.KeyValueExpr); !keyed {
+							return true // positional: every field given
+						}
+					}
+					given := map[string]bool{}
+					for _, e := range x.Elts {
+						if kv, ok := e.(*ast.KeyValueExpr); ok {
+							if id, ok := kv.Key.(*ast.Ident); ok && !isNilExpr(info, kv.Value) {
+								given[id.Name] = true
+							}
+						}
+					}
+					markZero(T, x.Pos(), given)
+				case *ast.CallExpr:
+					if id, ok := x.Fun.(*ast.Ident); ok && id.Name == "new" && len(x.Args) == 1 {
+						if _, isB := info.Uses[id].(*types.Builtin); isB {
+							markZero(info.TypeOf(x.Args[0]), x.Pos(), nil)
+						}
+					}
+				case *ast.ValueSpec:
+					if len(x.Values) == 0 && x.Type != nil {
+						markZero(info.TypeOf(x.Type), x.Pos(), nil)
+					}
+				case *ast.AssignStmt:
+					for i, l := range x.Lhs {
+						if i < len(x.Rhs) && isNilExpr(info, x.Rhs[i]) {
+							if sel, ok := l.(*ast.SelectorExpr); ok {
+								if s := info.Selections[sel]; s != nil && s.Kind() == types.FieldVal {
+									T := s.Recv()
+									if pt, ok := T.Underlying().(*types.Pointer); ok {
+										T = pt.Elem()
+									}
+									if named, ok := T.(*types.Named); ok {
+										if st, ok := named.Underlying().(*types.Struct); ok {
+											for k := 0; k < st.NumFields(); k++ {
+												if st.Field(k) == s.Obj() {
+													nilable[fkey{named, k}] = x.Pos()
+												}
+											}
+										}
+									}
+								}
+							}
+						}
+					}
+				}
+				return true
+			})
+		}
+	}
+	// loads of nil-able fields
+	fieldOf := func(v ssa.Value) (fkey, bool) {
+		u, ok := v.(*ssa.UnOp)
+		if !ok || u.Op != token.MUL {
+			// value-typed struct: Field instruction
+			if fv, ok := v.(*ssa.Field); ok {
+				if named, ok := fv.X.Type().(*types.Named); ok {
+					return fkey{named, fv.Field}, true
+				}
+			}
+			return fkey{}, false
+		}
+		fa, ok := u.X.(*ssa.FieldAddr)
+		if !ok {
+			return fkey{}, false
+		}
+		T := fa.X.Type()
+		if pt, ok := T.Underlying().(*types.Pointer); ok {
+			T = pt.Elem()
+		}
+		named, ok := T.(*types.Named)
+		if !ok {
+			return fkey{}, false
+		}
+		return fkey{named, fa.Field}, true
+	}
+	nSites, nNilable := 0, 0
+	for _, f := range scope {
+		for _, b := range f.Blocks {
+			for _, in := range b.Instrs {
+				var ptr ssa.Value
+				switch x := in.(type) {
+				case *ssa.FieldAddr:
+					ptr = x.X
+				case *ssa.UnOp:
+					if x.Op == token.MUL {
+						ptr = x.X
+					}
+				}
+				if ptr == nil {
+					continue
+				}
+				k, ok := fieldOf(ptr)
+				if !ok {
+					continue
+				}
+				nSites++
+				where, isNilable := nilable[k]
+				if !isNilable {
+					continue
+				}
+				nNilable++
+				guarded := controlledNil(b, ptr, true)
+				if !guarded {
+					// a test of another load of the same field of the same base
+					for _, cnd := range controlConds(b) {
+						bo, ok := cnd.v.(*ssa.BinOp)
+						if !ok {
+							continue
+						}
+						for _, side := range []ssa.Value{bo.X, bo.Y} {
+							if k2, ok := fieldOf(side); ok && k2 == k && sameValue(side, ptr) {
+								if nn, ok := isNilCheck(cnd.v, side); ok && nn == cnd.pol {
+									guarded = true
+								}
+							}
+						}
+					}
+				}
+				if !guarded {
+					guarded = fieldEnsured(f, b, in, ptr, k.f, 0)
+				}
+				st := k.T.Underlying().(*types.Struct)
+				c.Check("R14.5", fmt.Sprintf("%s dereferences %s.%s only under a nil test", shortFn(f), k.T.Obj().Name(), st.Field(k.f).Name()), in.Pos(), guarded,
+					fmt.Sprintf("the field is left nil by the value built at %s, and this dereference is not control-dependent on a nil test: an input that takes both paths crashes with a nil pointer dereference", c.rel(where)),
+					"")
+			}
+		}
+	}
+	if nNilable == 0 {
+		c.Pass("R14.5", "no pointer loaded from a nil-able field is dereferenced in the functions in scope", token.NoPos, fmt.Sprintf("%d nil-able pointer fields, %d dereferences of field-loaded pointers examined", len(nilable), nSites))
+	}
+}
+
+// fieldEnsured: before instruction `at` (in block b of f) the pointer field loaded as ptr (= *FieldAddr(base, field)) has been
+// made non-nil on every path: a store of a freshly allocated value to the same field of the same base dominates the use, or
+// a call of a method on the same base that ensures the field (each of its returns is dominated by such a store or is taken
+// only when the field is already non-nil) dominates it.
+func fieldEnsured(f *ssa.Function, b *ssa.BasicBlock, at ssa.Instruction, ptr ssa.Value, field int, depth int) bool {
+	u, ok := ptr.(*ssa.UnOp)
+	if !ok {
+		return false
+	}
+	fa, ok := u.X.(*ssa.FieldAddr)
+	if !ok {
+		return false
+	}
+	base := fa.X
+	for _, blk := range f.Blocks {
+		if blk != b && !blk.Dominates(b) {
+			continue
+		}
+		for _, in := range blk.Instrs {
+			if blk == b && instrIndex(in) >= instrIndex(at) {
+				break
+			}
+			switch x := in.(type) {
+			case *ssa.Store:
+				if fa2, ok := x.Addr.(*ssa.FieldAddr); ok && fa2.Field == field && sameValue(fa2.X, base) && valueNonNilByConstruction(x.Val, 0) {
+					return true
+				}
+			case *ssa.Call:
+				callee := x.Call.StaticCallee()
+				if callee == nil || len(x.Call.Args) == 0 || !sameValue(x.Call.Args[0], base) || callee.Signature.Recv() == nil || depth > 1 {
+					continue
+				}
+				if methodEnsuresField(callee, field) {
+					return true
+				}
+			}
+		}
+	}
+	return false
+}
+
+// methodEnsuresField: every return of the method leaves recv.field non-nil.
+func methodEnsuresField(m *ssa.Function, field int) bool {
+	if len(m.Params) == 0 || len(m.Blocks) == 0 {
+		return false
+	}
+	recv := m.Params[0]
+	nRet := 0
+	for _, blk := range m.Blocks {
+		ret, ok := blk.Instrs[len(blk.Instrs)-1].(*ssa.Return)
+		if !ok {
+			continue
+		}
+		nRet++
+		ok = false
+		// (a) taken only when the field is non-nil
+		for _, cnd := range controlConds(blk) {
+			bo, isBin := cnd.v.(*ssa.BinOp)
+			if !isBin {
+				continue
+			}
+			for _, side := range []ssa.Value{bo.X, bo.Y} {
+				if uu, isU := side.(*ssa.UnOp); isU {
+					if fa, isF := uu.X.(*ssa.FieldAddr); isF && fa.Field == field && fa.X == ssa.Value(recv) {
+						if nn, isN := isNilCheck(cnd.v, side); isN && nn == cnd.pol {
+							ok = true
+						}
+					}
+				}
+			}
+		}
+		// (b) dominated by a store of a fresh value
+		if !ok {
+			for _, b2 := range m.Blocks {
+				if b2 != blk && !b2.Dominates(blk) {
+					continue
+				}
+				for _, in := range b2.Instrs {
+					if st, isS := in.(*ssa.Store); isS {
+						if fa, isF := st.Addr.(*ssa.FieldAddr); isF && fa.Field == field && fa.X == ssa.Value(recv) && valueNonNilByConstruction(st.Val, 0) {
+							ok = true
+						}
+					}
+				}
+			}
+		}
+		if !ok {
+			return false
+		}
+		_ = ret
+	}
+	return nRet > 0
 }
